@@ -239,21 +239,61 @@ func (m *mergeRun) tick(fn string, args ...string) {
 	atomic.AddInt64(&nExec, 1)
 }
 
+// orderVariants (set in the shim flavour): runs a call under the default (sorted) order of every
+// map iteration inside the library and under every rotation of each one in turn.
+var orderVariants func(call func() impl.R) []impl.R
+
+// underOrders runs call once (plain flavour) or under every owned map-iteration order (shim
+// flavour); the default-order result is returned to the ordinary oracle, and any other order whose
+// outcome differs from it by more than member order is a violation of its own.
+func (m *mergeRun) underOrders(fn string, call func() impl.R, args ...string) impl.R {
+	if orderVariants == nil || m.legacy {
+		return call()
+	}
+	rs := orderVariants(call)
+	m.ctx.Count("map_order_variants_run", int64(len(rs)-1))
+	for _, r := range rs[1:] {
+		atomic.AddInt64(&nExec, 1)
+		if outcomeKey(r) != outcomeKey(rs[0]) {
+			m.viol("result-depends-on-map-order", "result-depends-on-map-order:"+fn,
+				fmt.Sprintf("%s(%s): with the library's map iterations in sorted order the outcome is %s; with one of them rotated it is %s", fn, strings.Join(quoteAll(args), ", "), outcomeKey(rs[0]), outcomeKey(r)), fn, args...)
+			break
+		}
+	}
+	return rs[0]
+}
+
+// outcomeKey: error text / panic / boolean / the JSON value (member order ignored).
+func outcomeKey(r impl.R) string {
+	switch {
+	case r.Panic != "":
+		return "panic"
+	case r.Err != "":
+		return "error: " + r.Err
+	case r.Out == nil:
+		return fmt.Sprintf("bool %v", r.Bool)
+	}
+	if v, err := rj.Parse(r.Out); err == nil {
+		return "value " + rj.Canon(v)
+	}
+	return "text " + string(r.Out)
+}
+
 func (m *mergeRun) MergePatch(d, p string) impl.R {
 	m.tick("MergePatch", d, p)
-	return impl.MergePatch(m.legacy, []byte(d), []byte(p))
+	return m.underOrders("MergePatch", func() impl.R { return impl.MergePatch(m.legacy, []byte(d), []byte(p)) }, d, p)
 }
 func (m *mergeRun) MergeMerge(a, b string) impl.R {
 	m.tick("MergeMergePatches", a, b)
-	return impl.MergeMergePatches(m.legacy, []byte(a), []byte(b))
+	return m.underOrders("MergeMergePatches", func() impl.R { return impl.MergeMergePatches(m.legacy, []byte(a), []byte(b)) }, a, b)
 }
 func (m *mergeRun) Create(a, b string) impl.R {
 	m.tick("CreateMergePatch", a, b)
-	return impl.CreateMergePatch(m.legacy, []byte(a), []byte(b))
+	return m.underOrders("CreateMergePatch", func() impl.R { return impl.CreateMergePatch(m.legacy, []byte(a), []byte(b)) }, a, b)
 }
 func (m *mergeRun) Equal(a, b string) impl.R {
 	m.tick("Equal", a, b)
-	return impl.Equal(m.legacy, []byte(a), []byte(b))
+	return m.underOrders("Equal", func() impl.R { return impl.Equal(m.legacy, []byte(a), []byte(b)) }, a, b)
 }
 
 // notUTF8 is the C15 clause "valid UTF-8 given UTF-8 input".
